@@ -1,27 +1,29 @@
 (* C02 — HTTP/1 responses: one per request, in order, self-framed, body-faithful.
    Only statements here; proofs live in H1/EncoderProofs.v and H1/RespSeqProofs.v.
    Models: H1/Encoder.v (Codec::encode, MessageEncoder::encode, encode_headers, TransferEncoding;
-   the tree with fixes F1, F2, F12, F18, F23 applied), H1/RespSeq.v (dispatcher response state machine
+   the tree with fixes F1, F2, F12, F18, F18b, F23 applied), H1/RespSeq.v (dispatcher response state machine
    at event granularity).  Specification: H1/RespSpec.v (independent RFC 7230 response reader). *)
 From Coq Require Import String Sorting.Sorted.
 From AV Require Import Lib.Base H1.Encoder H1.RespSpec H1.RespSeq H1.EncoderProofs H1.RespSeqProofs.
+From AV Require Import H1.RespAbortProofs H1.Flush H1.FlushProofs H1.RespWire H1.RespWireProofs.
 Open Scope N_scope.
 
 (* ------------------------------------------------------------------ body-faithful, self-framed *)
-(* For every request context that is not HEAD (and not a CONNECT/upgrade stream: known class
-   F18b), every response whose status may carry a body, every declared size and EVERY chunk list
+(* For every request context that is not HEAD (CONNECT / upgrade STREAM contexts included, after
+   the F18b repair), every response whose status may carry a body, every declared size and EVERY chunk list
    (empty chunks included): the independent reader, given the emitted head fields and the bytes
    produced by Chunk(Some)* then Chunk(None), decodes exactly the concatenation of the chunks,
    cut to the declared size, and consumes exactly the bytes written.  If the body ends short of
    its declared size, Chunk(None) is an error (the dispatcher aborts the connection) and what was
    written never reads as a complete message, whether or not the connection is closed.
-   Excluded: the handler opted out of framing (no_chunking on a streaming body) AND set its own
-   Content-Length / Transfer-Encoding, which then is the framing. *)
+   Excluded: a body framed by the end of the connection on request of the handler (no_chunking) or
+   because the request was CONNECT/upgrade, where the handler ALSO set its own Content-Length /
+   Transfer-Encoding, which then is the framing. *)
 Theorem C02_te_roundtrip : forall (c : codec) (r : resp) (sz : bsize) (chunks : list bytes),
-  c_head c = false -> c_stream c = false ->
+  c_head c = false ->
   no_body_status (rs_status r) = false ->
   lower_names (rs_headers r) ->
-  (rs_nochunk r = true -> sz = BStream ->
+  (rs_nochunk r = true \/ c_stream c = true -> sz = BStream ->
    user_has "transfer-encoding" r = false /\ user_has "content-length" r = false) ->
   (forall n, sz = BSized n -> n < 2 ^ 64) ->
   Forall (fun b => lenN b < 2 ^ 64) chunks ->
@@ -42,7 +44,7 @@ Proof. exact te_roundtrip. Qed.
 
 (* the same fact read the other way: a short body is an error, never a complete-looking message *)
 Theorem C02_short_body_is_error : forall (c : codec) (r : resp) (n : N) (chunks : list bytes),
-  c_head c = false -> c_stream c = false -> no_body_status (rs_status r) = false ->
+  c_head c = false -> no_body_status (rs_status r) = false ->
   lower_names (rs_headers r) -> n < 2 ^ 64 -> Forall (fun b => lenN b < 2 ^ 64) chunks ->
   lenN (concat chunks) < n ->
   let c1 := item_codec c r (BSized n) in
@@ -50,8 +52,8 @@ Theorem C02_short_body_is_error : forall (c : codec) (r : resp) (n : N) (chunks 
   forall closed, read_message false (rs_status r) (hd_fields (item_head c r (BSized n)))
                               (snd (codec_encode_chunks c1 chunks)) closed = RIncomplete.
 Proof.
-  intros c r n chunks Hh Hs Hst Hl Hn Hc Hshort c1.
-  pose proof (te_roundtrip c r (BSized n) chunks Hh Hs Hst Hl) as H.
+  intros c r n chunks Hh Hst Hl Hn Hc Hshort c1.
+  pose proof (te_roundtrip c r (BSized n) chunks Hh Hst Hl) as H.
   cbv zeta in H. fold c1 in H.
   destruct (codec_encode_eof (fst (codec_encode_chunks c1 chunks))) as [[c3 tail]|].
   - destruct H as [Hge _]; try discriminate; auto.
@@ -100,7 +102,7 @@ Theorem C02_http10_never_chunked : forall (c : codec) (r : resp) (sz : bsize),
   c_ver c = V10 ->
   (forall e, c_te (item_codec c r sz) <> TChunked e) /\
   (lower_names (rs_headers r) ->
-   rs_nochunk r = false \/ user_has "transfer-encoding" r = false ->
+   (rs_nochunk r = false /\ (c_stream c = false \/ sz <> BStream)) \/ user_has "transfer-encoding" r = false ->
    rs_status r <> 304 ->
    field_values "transfer-encoding" (hd_fields (item_head c r sz)) = []).
 Proof. exact http10_never_chunked. Qed.
@@ -108,22 +110,19 @@ Proof. exact http10_never_chunked. Qed.
 (* a body delimited by the end of the connection never leaves the connection in keep-alive *)
 Theorem C02_close_delimited_closes : forall (c : codec) (r : resp) (sz : bsize),
   c_te (item_codec c r sz) = TEof -> c_conn (item_codec c r sz) <> CKeepAlive.
-Proof.
-  intros c r sz. unfold item_codec, codec_encode_item, msg_encode. cbn [fst c_te c_conn].
-  intros ->. cbn [te_is_eof]. rewrite andb_true_r.
-  destruct (rs_conn r) as [[| |]|]; try discriminate;
-    destruct (c_conn c); cbn [conn_eqb]; discriminate.
-Qed.
+Proof. exact close_delimited_closes. Qed.
 
 (* ------------------------------------------------------------------ user framing headers *)
-(* Unless the handler opted out (no_chunking with a streaming body) or the response is a 304
-   (documented retention of a manual content-length): the head is
+(* Unless the body is framed by the end of the connection on the handler's or the request's
+   account (no_chunking, or a CONNECT/upgrade request, with a streaming body) or the response is a
+   304 (documented retention of a manual content-length): the head is
    [generated length field] ++ [generated connection field] ++ user headers ++ date, where the
    user part contains no Content-Length, Transfer-Encoding or Connection field. *)
 Theorem C02_user_framing_headers_ignored : forall (c : codec) (r : resp) (sz : bsize),
   lower_names (rs_headers r) ->
   rs_status r <> 304 ->
-  (rs_nochunk r = false \/ sz <> BStream \/ (is_informational (rs_status r) || (rs_status r =? 204)) = true) ->
+  ((rs_nochunk r = false /\ c_stream c = false) \/ sz <> BStream \/
+   (is_informational (rs_status r) || (rs_status r =? 204)) = true) ->
   let fields := hd_fields (item_head c r sz) in
   let ct := c_conn (item_codec c r sz) in
   exists len_fields,
@@ -154,6 +153,82 @@ Theorem C02_order_one_per_request :
   (forall j, In j (d_started d) -> (j < arrivals es)%nat) /\
   d_wbuf d + d_flushed d = lenN (units_bytes (d_out d)).
 Proof. exact order_one_per_request. Qed.
+
+(* ------------------------------------------------------------------ aborted, never complete-looking *)
+(* Last clause of the property, on the sequencing model, for EVERY schedule and every handler /
+   body script (erroring bodies, bodies that end short of their declared size, handler errors
+   answered through SendErrorPayload): if the connection is aborted (d_fail = Some _), then
+   - the response in progress j is the last thing in write_buf: its head, then only its own body
+     units; no later response head follows, and nothing is ever appended again, whatever events
+     follow (the future has resolved with DispatchError::Body / Io);
+   - those body bytes are the transfer encoding of the chunks polled so far WITHOUT end-of-body:
+     the encoder never reached Chunked(eof) -- the terminating 0-chunk was not written -- and for
+     a short body the Length encoder still expects rem > 0 bytes. *)
+Theorem C02_abort_never_completes :
+  forall (reqs : list reqctx) (hs : list hscript) (wbs : N) (ka : bool) (es : list event) (f : failure),
+  let d := run reqs hs wbs (d_init ka) es in
+  d_fail d = Some f ->
+  exists j e pre h ds t0 chunks,
+    d_st d = SSend j e /\
+    d_out d = pre ++ UHead (Some j) h :: map (UData j) ds /\
+    t0 <> TChunked true /\
+    te_chunks t0 chunks = (c_te (d_codec d), concat ds) /\
+    c_te (d_codec d) <> TChunked true /\
+    (f = FIo -> exists rem, c_te (d_codec d) = TLength rem /\ 0 < rem) /\
+    forall es', run reqs hs wbs d es' = d.
+Proof. exact abort_never_completes. Qed.
+
+(* ... and to a client such bytes are never a complete body: chunked framing without its
+   terminator reads as Short for every fuel; a Length body with rem > 0 has fewer than the
+   declared n bytes.  (Eof framing cannot signal failure: inherent in close-delimited bodies.) *)
+Theorem C02_unterminated_chunked_is_incomplete :
+  forall (chunks : list bytes) (t' : te) (data : bytes) (fuel : nat),
+  Forall (fun b => lenN b < 2 ^ 64) chunks ->
+  te_chunks (TChunked false) chunks = (t', data) ->
+  read_chunked fuel data [] = CShort.
+Proof. exact unterminated_chunked_is_incomplete. Qed.
+
+Theorem C02_short_length_is_incomplete : forall (n : N) (chunks : list bytes) (rem : N) (data : bytes),
+  te_chunks (TLength n) chunks = (TLength rem, data) -> 0 < rem -> lenN data < n.
+Proof. exact short_length_is_incomplete. Qed.
+
+(* ------------------------------------------------------------------ end to end with the flush layer *)
+(* The sequencing layer composed with the C04 flush layer (H1/Flush.v, poll_flush against a
+   scripted socket; composition in H1/RespWire.v): for EVERY schedule of arrivals, polls and
+   poll_flush calls with ANY socket behaviour (partial writes, Pending, Ok(0), errors): the bytes
+   accepted by the socket are a prefix of the concatenation of the response units in dispatch
+   order, which is well-sequenced; while the connection is alive accepted ++ write_buf is exactly
+   that concatenation (C04_flush_exactly_once_in_order: every byte once, in order) and the two
+   models agree on write_buf's length (so the write-buffer gate is the real one); once the
+   connection future has failed (body error, short body, write error) the state is frozen:
+   whatever is still in write_buf -- the rest of the aborted response AND complete earlier
+   responses not yet flushed -- is dropped with the connection. *)
+Theorem C02_wire_is_prefix_of_responses :
+  forall (reqs : list reqctx) (hs : list hscript) (wbs : N) (ka : bool) (wes : list wevent),
+  warr_ok O wes ->
+  let w := wrun reqs hs wbs (winit ka) wes in
+  let d := w_d w in let fs := w_f w in
+  well_sequenced (d_out d) /\
+  (forall j h, In (UHead (Some j) h) (d_out d) -> In j (d_started d)) /\
+  StronglySorted lt (d_started d) /\
+  (forall j, In j (d_started d) -> (j < warrivals wes)%nat) /\
+  prefix_of (s_wire fs) (units_bytes (d_out d)) /\
+  (wdead w = false -> s_wire fs ++ s_buf fs = units_bytes (d_out d) /\ d_wbuf d = lenN (s_buf fs)) /\
+  (wdead w = true -> forall wes', wrun reqs hs wbs w wes' = w).
+Proof. exact wire_is_prefix_of_responses. Qed.
+
+(* the dropped-bytes clause is not vacuous: response 0 is complete in write_buf, the socket was
+   slow (Pending), response 1's body fails: nothing of response 0 ever reaches the wire *)
+Example C02_dropped_with_the_connection :
+  let reqs := [mkReq false V11 None false false; mkReq false V11 None false false] in
+  let hs := [mkH 0 false (mkResp 200 None false []) KPlain (BSized 2) [BChunk [97; 98]];
+             mkH 0 false (mkResp 200 None false []) KPlain BStream [BChunk [99]; BErr]] in
+  let wes := [WArrive 0; WTick; WTick; WTick; WFlush [WPending] (WAccept 1000) FReady;
+              WArrive 1; WTick; WTick; WTick; WFlush [] (WAccept 1000) FReady] in
+  let w := wrun reqs hs 32768 (winit true) wes in
+  warr_ok O wes /\ wdead w = true /\ d_fail (w_d w) = Some FBody /\ s_wire (w_f w) = [] /\
+  exists h, firstn 3 (d_out (w_d w)) = [UHead (Some O) h; UData O [97; 98]; UData O []].
+Proof. cbv zeta. split; [cbn; tauto|]. vm_compute. repeat split. eexists. reflexivity. Qed.
 
 (* ------------------------------------------------------------------ own request + own response *)
 (* Given a per-request context (the response is encoded right after its own request's context was
@@ -193,21 +268,19 @@ Example C02_pipelined_context_example :
   [(O, str "HTTP/1.1"); (O, [97; 98]); (O, []); (1%nat, str "HTTP/1.0"); (1%nat, []); (1%nat, [])].
 Proof. vm_compute. reflexivity. Qed.
 
-(* ------------------------------------------------------------------ further known class *)
-(* F18b: for a CONNECT / websocket-upgrade request (codec STREAM flag) answered with a streaming
-   body and a status that may carry a body, the head announces chunked but the body is written
-   raw: the reader cannot decode it (here: it waits for 0xab chunk bytes that never come). *)
-Theorem C02_refuted_stream_request_chunked_header :
-  exists (c : codec) (r : resp) (chunks : list bytes) (tail : bytes),
-    c_stream c = true /\ c_head c = false /\ no_body_status (rs_status r) = false /\
-    codec_encode_eof (fst (codec_encode_chunks (item_codec c r BStream) chunks)) = Some (fst (codec_encode_chunks (item_codec c r BStream) chunks), tail) /\
-    read_message false (rs_status r) (hd_fields (item_head c r BStream))
-                 (snd (codec_encode_chunks (item_codec c r BStream) chunks) ++ tail) true = RIncomplete.
-Proof.
-  exists (codec_decode (codec_new true) (mkReq false V11 None true false)),
-         (mkResp 404 None false []), [[97; 98]], [].
-  repeat split; vm_compute; reflexivity.
-Qed.
+(* ------------------------------------------------------------------ former class F18b *)
+(* CONNECT / websocket-upgrade request (codec STREAM flag) answered 404 with a streaming body: the
+   head used to announce chunked in front of a raw body; after the repair it announces nothing,
+   the connection type is close, and the reader decodes the body (C02_te_roundtrip covers it). *)
+Example C02_stream_request_example :
+  let c := codec_decode (codec_new true) (mkReq false V11 None true false) in
+  let r := mkResp 404 None false [] in
+  field_values "transfer-encoding" (hd_fields (item_head c r BStream)) = [] /\
+  c_conn (item_codec c r BStream) = CClose /\
+  read_message false 404 (hd_fields (item_head c r BStream))
+               (snd (codec_encode_chunks (item_codec c r BStream) [[97; 98]])) true =
+  RComplete FClose [97; 98] 2.
+Proof. vm_compute. repeat split. Qed.
 
 (* ------------------------------------------------------------------ non-vacuity *)
 (* two pipelined requests, the second decoded while the first handler is pending; a streaming
